@@ -51,6 +51,25 @@ Oracle (from the property statement):
 * A call is "inside a notifications-disabled scope" iff the innermost
   `pg.notify_on_change` scope of the calling thread that is still open says
   False -- however inner scopes were left (normally or by an exception).
+* A mutating call made from INSIDE a running handler (`_on_change` /
+  `_on_bound` override, onchange_callback, `_on_change` of a functor subclass;
+  also `_on_init` / `_on_bound` at construction, `_on_parent_change`,
+  `_on_path_change` of another object) is a mutating call like any other: with
+  the default skip_notification=None (or =False, or inside the handler's own
+  notify_on_change(True)) it delivers one event per affected ancestor, children
+  first, with the values it replaced / wrote; the outer call still delivers
+  its own events with the values IT replaced / wrote, whatever the handler did
+  afterwards; with skip_notification=True / inside the handler's own
+  notify_on_change(False) the nested call delivers nothing; after the outer
+  call returned all derived facts are fresh and the next ordinary call
+  delivers as usual (also when the handler raised).  The scope a handler runs
+  in is the caller's: nobody entered a disabled scope on its behalf.
+* Unbinding a functor argument (`del f.arg`, `del f.sym_init_args['arg']`,
+  rebind to MISSING_VALUE) is a mutation of the location `arg`: from the bound
+  value to the default (or to "missing" for a required argument).  Unbinding
+  what is not bound (or resetting a value that already is the default)
+  changes no location: no event (own case id
+  `reset-to-default/value-already-default`).
 """
 import itertools
 import re
@@ -82,6 +101,26 @@ PRE_PARTS = {
   allow_symbolic_assignment=True
   z:T.Any(default=None);r:T.Int()
 ''',
+    # A functor with a required argument, one with a default and one holding
+    # anything; Fy: a subclass of it with handlers.
+    'Fx': '''@pg.functor([('x',T.Any()),('y',T.Any(default=1)),('z',T.Any(default=None))])
+def Fx(x,y=1,z=None):return x
+''',
+    'Fy': '''class Fy(Fx):
+  def _on_change(s,u):LOG.append(('c',s,dict(u)));super()._on_change(u)
+''',
+    # An object whose life-cycle handlers run a one-shot action (ARM[kind]).
+    'Hk': '''ARM={}
+def ACT(k):
+  f=ARM.pop(k,None)
+  if f:f()
+class Hk(pg.Object):
+  v:T.Any(default=None)
+  def _on_init(s):super()._on_init();ACT('init')
+  def _on_bound(s):super()._on_bound();ACT('bound')
+  def _on_parent_change(s,o,n):super()._on_parent_change(o,n);ACT('parent')
+  def _on_path_change(s,o,n):super()._on_path_change(o,n);ACT('path')
+''',
     # who(): the container an event was delivered to (a clone of a Dict shares
     # the callback of its origin, so the closure alone cannot tell).
     'who': '''def who(h,u):
@@ -105,14 +144,26 @@ def c09_set(src,path,v):return {path:v}
 def c09_bump(src,d):return lambda k,v:v+d if isinstance(v,int) and not isinstance(v,bool) else v
 ''',
 }
+# The same head for scenarios in which a handler mutates: H maps (event tag,
+# id(receiver)) to a one-shot function that runs INSIDE the handler, right
+# after the handler logged its event.
+PRE_HEAD_H = '''import pyglove as pg
+T=pg.typing;H={}
+class _L(list):
+  def append(s,e):
+    list.append(s,e);f=H.pop((e[0],id(e[1])),None)
+    if f:f()
+LOG=_L()
+'''
 _NS = {'__name__': __name__}
-exec(compile(PRE_HEAD + ''.join(PRE_PARTS.values()), '<c09-pre>', 'exec'), _NS)  # pylint: disable=exec-used
-LOG = _NS['LOG']
+exec(compile(PRE_HEAD_H + ''.join(PRE_PARTS.values()), '<c09-pre>', 'exec'), _NS)  # pylint: disable=exec-used
+LOG, H = _NS['LOG'], _NS['H']
 P, B, Q, cbd, cbl = (_NS[_k] for _k in ('P', 'B', 'Q', 'cbd', 'cbl'))
+Fx, Fy, Hk, ARM = _NS['Fx'], _NS['Fy'], _NS['Hk'], _NS['ARM']
 c09_set, c09_bump = _NS['c09_set'], _NS['c09_bump']
 SHORT_PRE = ('import pyglove as pg\n'
              'from bounded.c09_notify import P, B, Q, cbd, cbl, LOG, c09_set, '
-             'c09_bump\n')
+             'c09_bump, Fx, Fy, H, Hk, ARM, _warm, _ids, _events\n')
 
 TREES = {
     'objs': "P(a=1, b=P(a=2, b=B(u=Q(z=1, r=1)), l=[1, cbd(x=1)]), "
@@ -139,7 +190,17 @@ REF_TREES = {
             "e=pg.Dict(f=B(u=pg.Ref(cbd(x=1))), g=cbl([3, pg.Ref(B(t=2))])), "
             "r=pg.Ref(B()))",
 }
-TREE_SRC = dict(TREES, **REF_TREES)
+# Trees with functors (bound / unbound / partially bound arguments, a functor
+# subclass with handlers), stand-alone and inside a tree: drv_functor_args and
+# drv_in_handler.
+FN_TREES = {
+    'fn-root': "Fx(1, y=pg.oneof([1, 2]), z=P.partial())",
+    'fy-root': "Fy(x=Q.partial(), y=5)",
+    'fn-tree': "cbd(f=Fx(1, y=pg.oneof([1, 2])), p=P(a=1, b=Fy(x=B(u=Fx(2, "
+               "z=7)), y=1, z=[1, cbd(c=2)])), l=cbl([Fx(x=3, y=2, "
+               "z=Q.partial())]))",
+}
+TREE_SRC = dict(TREES, **REF_TREES, **FN_TREES)
 _CODE = {}
 
 
@@ -159,14 +220,15 @@ def _exec(src, **env):
   exec(c, ns)  # pylint: disable=exec-used
 
 
-def preamble(*srcs):
+def preamble(*srcs, hooks=False):
   text = ' '.join(srcs)
-  out = PRE_HEAD
+  out = PRE_HEAD_H if hooks else PRE_HEAD
   if 'cbd(' in text or 'cbl(' in text:
     out += PRE_PARTS['who']
   for name, part in PRE_PARTS.items():
     if name != 'who' and (name + '(' in text or name + '.' in text or
-                          name + '?' in text):
+                          name + '?' in text or
+                          (name == 'Fx' and 'Fy' in text)):
       out += part
   return out
 
@@ -214,6 +276,8 @@ def observable(n):
   """'change' / 'bound' / None: what this node can observe."""
   if isinstance(n, P):
     return 'change+bound'
+  if isinstance(n, Fy):   # (functors do not re-run _on_bound on a change)
+    return 'change'
   if isinstance(n, B):
     return 'bound'
   if isinstance(n, (pg.Dict, pg.List)):
@@ -400,6 +464,9 @@ def dict_ops(at, n, r, nvals):
           [((k,), 'SET')])
       add('dict.rebind/const-key-resets-default',
           f'n.rebind({{{k!r}: pg.MISSING_VALUE}})', [((k,), 'SET')])
+    elif not isinstance(n.sym_getattr(k), pg.Symbolic):
+      add(ALREADY_DEFAULT, f'del n[{k!r}]', [], nochange=True,
+          variant='dict.delitem/const-key')
   if newkey:
     for v in _vals(r, nvals):
       add('dict.setitem/new-key', f'n[{newkey!r}] = {v}', [((newkey,), 'SET')])
@@ -482,6 +549,8 @@ def object_ops(at, n, r, nvals):
     b = _vals(r, 1, _field_int_only(n, k2))[0]
     add('object.rebind/kwargs-2', f'n.rebind({k1}={a}, {k2}={b})',
         [((k1,), 'SET'), ((k2,), 'SET')])
+  if isinstance(n, pg.Functor):
+    _functor_unbind_ops(add, n)
   _combined_arg_ops(add, n, r, keys, None, 'object', 'n')
   _batch_ops(add, n, r, 'object')
   ints = _int_leaves(n)
@@ -489,6 +558,37 @@ def object_ops(at, n, r, nvals):
     add('object.rebind/fn', 'n.rebind(lambda k, v: 77 if isinstance(v, int) '
         'and not isinstance(v, bool) else v)', [(p, 'SET') for p in ints])
   return ops
+
+
+ALREADY_DEFAULT = 'reset-to-default/value-already-default'
+
+
+def _functor_unbind_ops(add, n):
+  """`del f.arg` (and the same through the attribute dict) per argument class.
+
+  A bound argument is reset: to its default (the location changes from the
+  bound value to the default) or, without default, to "missing".  Unbinding
+  an argument that is not bound, or is bound to the very default value,
+  changes no location.
+  """
+  for f in type(n).__schema__.fields.values():
+    if not isinstance(f.key, pg.typing.ConstStrKey):
+      continue
+    k = f.key.text
+    cur = n.sym_getattr(k, MISSING) if n.sym_hasattr(k) else MISSING
+    dflt = f.default_value if f.value.has_default else MISSING
+    if not isinstance(cur, pg.Symbolic) and (
+        (MISSING == cur and MISSING == dflt) or
+        (MISSING != cur and MISSING != dflt and cur == dflt and
+         type(cur) is type(dflt))):  # pylint: disable=unidiomatic-typecheck
+      add(ALREADY_DEFAULT, f'del n.{k}', [], nochange=True,
+          variant='functor.delattr')
+      continue
+    cls = 'arg-with-default' if f.value.has_default else 'required-arg'
+    add(f'functor.delattr/{cls}', f'del n.{k}', [((k,), 'SET')],
+        must_succeed=True)
+    add(f'functor.sym_init_args.delitem/{cls}', f'del n.sym_init_args[{k!r}]',
+        [((k,), 'SET')], must_succeed=True)
 
 
 def _combined_arg_ops(add, n, r, keys, newkey, kind, recv):
@@ -844,6 +944,9 @@ def op_src_lines(op, mode):
   elif mode == 'skip-false':
     assert src.endswith(')')
     lines += [src[:-1] + ', skip_notification=False)']
+  elif mode == 'skip-none':
+    assert src.endswith(')')
+    lines += [src[:-1] + ', skip_notification=None)']
   elif mode == 'disabled-skip-none':
     assert src.endswith(')')
     lines += ['with pg.notify_on_change(False):',
@@ -878,16 +981,13 @@ def run_step(rec, tree, root, history, op, mode, tag, check_facts=True):
     return False
 
 
-def _run_step(rec, tree, root, history, op, mode, tag, check_facts=True):
-  """Executes `op` on root in `mode`; returns False if the history must stop.
+def _model(n, at, op):
+  """(exp, chains) of `op` about to be made on node `n` (at keys `at`).
 
-  mode: 'normal' | 'nested-enabled' | 'skip-false' (skip_notification=False
-  with notifications enabled): events as usual; 'disabled' | 'skip' |
-  'disabled-skip-none' (skip_notification=None inside a disabled scope): none.
+  exp: [(abs_keys, post, old, target container)] per expected location;
+  chains: per location the symbolic ancestors-or-self of the container,
+  nearest first, as [(keys, node)].
   """
-  at = op['at']
-  n = resolve(root, at)
-  # --- model: expected changed locations, old values, receivers -----------
   exp = []
   for rel, post in op['exp']:
     target = n if len(rel) == 1 else resolve(n, rel[:-1])
@@ -896,8 +996,6 @@ def _run_step(rec, tree, root, history, op, mode, tag, check_facts=True):
     if post == 'INS':   # inserted list element: nothing was there before
       old, post = MISSING, 'SET'
     exp.append((at + tuple(rel), post, old, target))
-  pre_nodes = sym_nodes(root)
-  pre_ids = {id(x): keys for keys, x in pre_nodes}
   chains = []   # per expected location: observers-to-be, nearest first
   for abs_keys, post, old, target in exp:
     chain = []
@@ -913,6 +1011,21 @@ def _run_step(rec, tree, root, history, op, mode, tag, check_facts=True):
         chain.append((tk, t))
       t = t.sym_parent
     chains.append(chain)
+  return exp, chains
+
+
+def _run_step(rec, tree, root, history, op, mode, tag, check_facts=True):
+  """Executes `op` on root in `mode`; returns False if the history must stop.
+
+  mode: 'normal' | 'nested-enabled' | 'skip-false' (skip_notification=False
+  with notifications enabled): events as usual; 'disabled' | 'skip' |
+  'disabled-skip-none' (skip_notification=None inside a disabled scope): none.
+  """
+  at = op['at']
+  n = resolve(root, at)
+  exp, chains = _model(n, at, op)
+  pre_nodes = sym_nodes(root)
+  pre_ids = {id(x): keys for keys, x in pre_nodes}
   # --- execute -------------------------------------------------------------
   lines = op_src_lines(op, mode)
   del LOG[:]
@@ -947,8 +1060,8 @@ def _run_step(rec, tree, root, history, op, mode, tag, check_facts=True):
     body = '\n'.join(
         [f'root = {TREE_SRC[tree]}'] + hist_lines + ([_WARM] if warm else []) +
         [_PRE_IDS, 'del LOG[:]'] + lines + assert_lines)
-    pre = preamble(TREE_SRC[tree], body)
-    if len(pre) + len(body) > 1190:
+    pre = preamble(TREE_SRC[tree], body, hooks='H[(' in body)
+    if len(pre) + len(body) > 1190 or '_warm(' in body:
       pre = SHORT_PRE   # keep the witness within the recorder's size limit
     return pre + body
 
@@ -1077,11 +1190,12 @@ def _run_step(rec, tree, root, history, op, mode, tag, check_facts=True):
 _WARM = ('for v in [root] + root.sym_descendants(lambda v: isinstance(v, '
          'pg.Symbolic)): v.sym_missing(), v.sym_nondefault(), '
          'v.sym_puresymbolic')
+_WARM_T = _WARM.replace('root', 't')
 _PRE_IDS = ('pre = {id(v) for v in [root] + root.sym_descendants(lambda v: '
             'isinstance(v, pg.Symbolic))}')
 
 
-def check_payload(root, rk, items, upd, op):
+def check_payload(root, rk, items, upd, op, snap=None):
   """Compares one receiver's event with the model."""
   problems = []
   got = {}
@@ -1131,7 +1245,8 @@ def check_payload(root, rk, items, upd, op):
     else:
       loc = abs_keys if post == 'SET' else abs_keys[:-len(post[1])] + post[1]
       try:
-        now = resolve(root, loc[:-1]).sym_getattr(loc[-1])
+        now = (resolve(root, loc[:-1]).sym_getattr(loc[-1]) if snap is None
+               else snap[abs_keys])
       except Exception as e:  # pylint: disable=broad-except
         now = e
       same_new = (fu.new_value is now) if isinstance(now, pg.Symbolic) else (
@@ -1197,7 +1312,8 @@ def drv_single_ops(tier, seed):
       'symbolic node (facts compared at every ancestor-or-self of a changed '
       'location in quick, at every node in thorough) x every list/dict/object mutator (incl. batched and '
       'functional rebind, slices, in-place operators, update/setdefault/pop/'
-      'popitem/clear/sort/reverse, same-object no-ops; l *= n for n in -2, 0, '
+      'popitem/clear/sort/reverse, same-object no-ops, deleting a fixed key '
+      'that already holds its default; l *= n for n in -2, 0, '
       '1, 2, 3 (4 thorough); growth by 3 elements/keys) x 3 (quick) / 11 '
       '(thorough) new-value classes; + the in-place helpers of pg.patching '
       '(patch_on_key/path/value/type/member with value or value_fn on patterns '
@@ -1209,8 +1325,16 @@ def drv_single_ops(tier, seed):
   nvals = 2 if tier == 'quick' else len(VALUES)
   ALL_NODES[0] = tier != 'quick'
   r = rng(seed, 'c09-single')
-  for tree in TREES:
+  _single_ops(rec, TREES, tier, r, nvals)
+  return rec.result()
+
+
+def _single_ops(rec, trees, tier, r, nvals, select=None):
+  """Every generated op (passing `select`) once, in every notification mode."""
+  for tree in trees:
     proto_ops = gen_ops(build(tree), None, nvals)
+    if select is not None:
+      proto_ops = [o for o in proto_ops if select(tree, o)]
     seen_modes = set()
     for i, op in enumerate(proto_ops):
       root = build(tree)
@@ -1231,12 +1355,70 @@ def drv_single_ops(tier, seed):
         if mode == 'nested-enabled' and tier == 'quick' and i % 3:
           continue
         if mode in ('skip-false', 'disabled-skip-none') and (
-            tier == 'quick' and tree not in ('objs', 'conts') and
+            tier == 'quick' and tree not in ('objs', 'conts', 'fn-tree') and
             not op['name'].startswith('patching.')):
           continue
         root = build(tree)
         _warm(root)
         run_step(rec, tree, root, [], op, mode, 'single')
+
+
+def _is_functor_at(tree, at):
+  try:
+    return isinstance(resolve(build(tree), at), pg.Functor)
+  except Exception:  # pylint: disable=broad-except
+    return False
+
+
+def drv_functor_args(tier, seed):
+  rec = Recorder(
+      'C09', 'binding / unbinding functor arguments (`del f.arg`, the same '
+      'through the attribute dict, assignment, rebind) stand-alone and inside '
+      'a tree, after the derived facts were queried: one event per affected '
+      'ancestor, derived facts vs deserialized copy',
+      scope='3 trees: a stand-alone plain functor, a stand-alone functor '
+      'subclass with _on_change, a tree Dict(callback) > functor / '
+      'Object(handlers) > functor subclass > Object(_on_bound) > functor / '
+      'List(callback) > functor; arguments: required, with default, bound to '
+      'a plain value, to a search-space placeholder, to a partial object, to '
+      'a list, bound to the default value itself, unbound; every binding / '
+      'unbinding call (thorough: every object mutator) at every functor node '
+      'in every notification mode + quick: 6 '
+      '(thorough: 150) seeded histories of length<=4 per tree in which every '
+      'other step unbinds an argument')
+  r = rng(seed, 'c09-fn')
+  ALL_NODES[0] = tier != 'quick'
+  nvals = 1 if tier == 'quick' else 4
+  fn_at = {}
+
+  binders = ('functor.', ALREADY_DEFAULT, 'object.setattr', 'object.rebind/',
+             'object.sym_init_args.')
+
+  def at_functor(tree, op):
+    k = (tree, op['at'])
+    if k not in fn_at:
+      fn_at[k] = _is_functor_at(tree, op['at'])
+    # (quick: the calls that bind / unbind arguments; thorough: all of them)
+    return fn_at[k] and (tier != 'quick' or op['name'].startswith(binders))
+  _single_ops(rec, FN_TREES, tier, r, nvals, at_functor)
+  for tree in FN_TREES:
+    for h in range(6 if tier == 'quick' else 150):
+      root = build(tree)
+      _warm(root)
+      history = []
+      for i in range(r.randint(2, 4)):
+        ops = [o for o in gen_ops(root, r, 1)
+               if o.get('notify_parents') is not False]
+        unbind = [o for o in ops if o['name'].startswith('functor.')]
+        if i % 2 == h % 2 and unbind:
+          ops = unbind
+        if not ops:
+          break
+        op = r.choice(ops)
+        mode = 'normal' if r.random() < 0.85 else 'nested-enabled'
+        if not run_step(rec, tree, root, history, op, mode, f'fn{h}'):
+          break
+        history.append(op_src_lines(op, mode))
   return rec.result()
 
 
@@ -1753,8 +1935,636 @@ def drv_references(tier, seed):
   return rec.result()
 
 
+# --------------------------------------------------------------------------
+# Mutations made from INSIDE a running change handler.
+#
+# A handler (`_on_change` / `_on_bound` override, onchange_callback) that runs
+# because of a mutating call T makes another mutating call M -- on its own
+# node, on the location T just wrote, below itself, on a sibling, an ancestor
+# or in another tree.  M is an ordinary mutating call: unless the handler asks
+# otherwise (skip_notification=True, its own notify_on_change(False) scope) it
+# delivers one event per affected ancestor, children first, with the values
+# that were there before / after M; T still delivers its own (one per affected
+# ancestor, with the values T replaced / wrote, whatever M did afterwards);
+# after T returned every derived fact is fresh.  The model of every call is
+# computed from the call itself at the moment it is made.
+# --------------------------------------------------------------------------
+
+_STABLE_LIST_OPS = frozenset((
+    'list.append', 'list.extend', 'list.extend/generator', 'list.iadd',
+    'list.iadd/tuple', 'list.setitem/index', 'list.pop/last',
+    'list.rebind/index', 'list.rebind/append', 'list.imul/2',
+    'list.extend/3-elements', 'list.rebind/fn',
+    'list.rebind/batch-multi-depth'))
+
+
+def _stable(op):
+  """Ops of these scenarios: change something, tell the parents, and do not
+  move the other elements of a list (paths stay what they were)."""
+  if op.get('nochange') or op.get('notify_parents') is False or not op['exp']:
+    return False
+  if any(post not in ('SET', 'DEL') for _, post in op['exp']):
+    return False
+  name = op['name']
+  if name.startswith('list.'):
+    return name in _STABLE_LIST_OPS
+  return not name.startswith('patching.')
+
+
+def _node_ops(keys, n, r):
+  k = kind_of(n)
+  fn = {'dict': dict_ops, 'list': list_ops, 'object': object_ops}.get(k)
+  if fn is None or isinstance(n, pg.hyper.OneOf) or isinstance(
+      n.sym_parent, pg.hyper.OneOf):
+    return []
+  try:
+    return [o for o in fn(keys, n, r, 1) if _stable(o)]
+  except Exception:  # pylint: disable=broad-except
+    return []
+
+
+def _handler_kind(n, tag):
+  if isinstance(n, pg.Functor):
+    return 'functor-on_change'
+  if isinstance(n, pg.Object):
+    return 'on_change' if tag == 'c' else 'on_bound'
+  return 'dict-callback' if isinstance(n, pg.Dict) else 'list-callback'
+
+
+RELATIONS = ('same-node', 'same-location', 'descendant', 'sibling', 'ancestor',
+             'other-tree')
+# How the handler makes its call -> does it deliver?
+INNER_MODES = {'normal': True, 'skip-none': True, 'skip-false': True,
+               'nested-enabled': True, 'skip': False, 'disabled': False}
+
+
+def _keys(n):
+  return tuple(n.sym_path.keys)
+
+
+def _is_prefix(a, b):
+  return len(a) <= len(b) and b[:len(a)] == a
+
+
+_PRE_IDS_2 = ('pre = {id(v) for t in (root, other) if t is not None for v in '
+              '[t] + t.sym_descendants(lambda v: isinstance(v, pg.Symbolic))}')
+_EV_SRC = ("ev = sorted(('o' if x.sym_root is other else 'r', str(x.sym_path), "
+           "sorted(map(str, u))) for t, x, *r in LOG if t == 'c' for u in r)")
+_NB_SRC = ("nb = sorted(('o' if x.sym_root is other else 'r', str(x.sym_path)) "
+           "for t, x, *r in LOG if t == 'b' and id(x) in pre)")
+
+
+def _ids(*roots):
+  """(witness helper) ids of all symbolic nodes of the given trees."""
+  return {id(v) for t in roots if t is not None for v in [t] + t.sym_descendants(
+      lambda v: isinstance(v, pg.Symbolic))}
+
+
+def _events(log, other, pre):
+  """(witness helper) (change events, _on_bound calls) as sorted lists."""
+  ns = dict(LOG=log, other=other, pre=pre)
+  exec(_EV_SRC + '\n' + _NB_SRC, ns)  # pylint: disable=exec-used
+  return ns['ev'], ns['nb']
+
+
+class _Call:
+  """One mutating call of a scenario and its model."""
+
+  def __init__(self, level, rtag, root, op, mode, n):
+    self.level, self.rtag, self.root, self.op, self.mode = (
+        level, rtag, root, op, mode)
+    self.lines = op_src_lines(op, mode)
+    self.exp, self.chains = _model(n, op['at'], op)
+    self.n = n
+    self.err = None
+    self.new = None
+    self.delivers = INNER_MODES[mode]
+
+  def snap(self):
+    """Remembers what the call left at its locations (once)."""
+    if self.new is None:
+      self.new = {}
+      for abs_keys, post, _, target in self.exp:
+        k = abs_keys[-1]
+        try:
+          self.new[abs_keys] = target.sym_getattr(k, MISSING) if (
+              target.sym_hasattr(k)) else MISSING
+        except Exception as e:  # pylint: disable=broad-except
+          self.new[abs_keys] = e
+
+  def receivers(self):
+    """{id: (keys, node, [(abs, post, old)])}: who this call affects."""
+    out = {}
+    for (abs_keys, post, old, _), chain in zip(self.exp, self.chains):
+      if post != 'DEL' and MISSING != old and self.new.get(abs_keys) is old:
+        continue   # the very same object: that location did not change
+      for tk, t in chain:
+        out.setdefault(id(t), (tk, t, []))[2].append((abs_keys, post, old))
+    return out
+
+
+def _in_handler_scenario(rec, r, tree, other_tree, recv_keys, tag, t_op, t_mode,
+                         relation, m_mode, depth2, raises):
+  """One scenario; returns (the source lines of the scenario, whether every
+  call of it delivered) when a follow-up step can be judged, else None."""
+  H.clear()
+  root = build(tree)
+  _warm(root)
+  roots = {'r': root}
+  if relation == 'other-tree' or depth2:
+    roots['o'] = build(other_tree)
+    _warm(roots['o'])
+  else:
+    other_tree = None
+  pre_ids = {id(x) for rt in roots.values() for _, x in sym_nodes(rt)}
+  recv = resolve(root, recv_keys)
+  calls = []
+  src = [f'root = {TREE_SRC[tree]}',
+         f'other = {TREE_SRC[other_tree] if other_tree else None}',
+         'for t in (root, other):' if other_tree else 'for t in (root,):',
+         '  ' + _WARM_T, _PRE_IDS_2]
+  state = dict(hook_ran=0, hk2=None, boom=False)
+  root_name = {'r': 'root', 'o': 'other'}
+
+  def protected(rtag):
+    return [a for c in calls if c.rtag == rtag for a, _, _, _ in c.exp]
+
+  def pick_inner(rel, holder, level):
+    """(rtag, op, node) of the call a handler of `holder` makes."""
+    hk = _keys(holder)
+    if rel == 'same-location':
+      outer = calls[-1]
+      abs_keys, post, _, target = outer.exp[0]
+      if post != 'SET':
+        return None
+      key = abs_keys[-1]
+      op = dict(name='rebind/same-location', at=_keys(target),
+                src=f'n.rebind({{{key!r}: {next(_counter)}}})',
+                exp=[((key,), 'SET')])
+      return outer.rtag, op, target
+    if rel == 'other-tree':
+      rtag = 'o' if calls[-1].rtag == 'r' else 'r'
+      if rtag not in roots:
+        return None
+      nodes = sym_nodes(roots[rtag])
+    else:
+      rtag = calls[-1].rtag
+      nodes = sym_nodes(roots[rtag])
+      test = {'same-node': lambda k: k == hk,
+              'descendant': lambda k: is_strict_desc(k, hk),
+              'ancestor': lambda k: is_strict_desc(hk, k),
+              'sibling': lambda k: not _is_prefix(k, hk) and
+                         not _is_prefix(hk, k)}[rel]
+      nodes = [(k, x) for k, x in nodes if test(k)]
+    r.shuffle(nodes)
+    prot = protected(rtag)
+    for k, x in nodes[:6]:
+      ops = [o for o in _node_ops(k, x, r)
+             if not any(_is_prefix(k + tuple(rel_), p)
+                        for rel_, _ in o['exp'] for p in prot)]
+      if level == 1 and m_mode in ('skip', 'skip-none', 'skip-false'):
+        ops = [o for o in ops if takes_skip(o)]
+      if ops:
+        return rtag, r.choice(ops), x
+    return None
+
+  def make_hook(level, holder, rel, mode):
+    """Registers the one-shot hook; returns the record of its source."""
+    node = dict(lines=[], sub=None, sub_expr=None)
+
+    def hook():
+      state['hook_ran'] += 1
+      for c in calls:
+        c.snap()   # what the calls in progress wrote, before anything else
+      picked = pick_inner(rel, holder, level)
+      if picked is None:
+        return
+      rtag, op, n = picked
+      call = _Call(level, rtag, roots[rtag], op, mode, n)
+      if level == 1 and depth2:
+        # A receiver of this nested call mutates in turn.
+        cands = [t for ch in call.chains for _, t in ch
+                 if 'change' in (observable(t) or '')]
+        if cands:
+          h2 = cands[0]
+          state['hk2'] = _handler_kind(h2, 'c')
+          node['sub_expr'] = node_expr(_keys(h2)).replace(
+              'root', root_name[rtag])
+          node['sub'] = make_hook(
+              2, h2, r.choice(RELATIONS[:1] + RELATIONS[2:]), 'normal')
+      calls.append(call)
+      node['lines'] += [
+          f"n = {node_expr(op['at']).replace('root', root_name[rtag])}"
+      ] + call.lines[1:]
+      try:
+        _exec('\n'.join(call.lines[1:]), n=n, root=roots[rtag])
+      except Exception as e:  # pylint: disable=broad-except
+        call.err = e
+      call.snap()
+      if level == 1 and raises:
+        node['lines'].append("raise RuntimeError('handler failed')")
+        raise RuntimeError('handler failed')
+    H[(tag if level == 1 else 'c', id(holder))] = hook
+    return node
+
+  def render(node, name, indent):
+    out = [indent + f'def {name}():']
+    inner = indent + '  '
+    if node['sub'] is not None:
+      out += render(node['sub'], 'hook2', inner)
+      out.append(inner + f"H[('c', id({node['sub_expr']}))] = hook2")
+    return out + [inner + ln for ln in (node['lines'] or ['pass'])]
+
+  # (the source of the hooks is only complete after the run: lists are shared)
+  hook_node = make_hook(1, recv, relation, m_mode)
+  outer = _Call(0, 'r', root, t_op, t_mode, resolve(root, t_op['at']))
+  calls.append(outer)
+  del LOG[:]
+  try:
+    _exec('\n'.join(outer.lines[1:]), n=outer.n, root=root)
+  except Exception as e:  # pylint: disable=broad-except
+    outer.err = e
+  outer.snap()
+  log = list(LOG)
+  del LOG[:]
+  H.clear()
+  body = render(hook_node, 'hook', '') + [
+      f"H[({tag!r}, id({node_expr(recv_keys)}))] = hook", 'del LOG[:]']
+  t_lines = outer.lines
+  if raises:
+    t_lines = (['try:'] + ['  ' + ln for ln in outer.lines] +
+               ['except RuntimeError: pass'])
+  src = src + body + t_lines
+  hk = _handler_kind(recv, tag)
+  stem = f'in-handler/{hk}/{relation}'
+  key = (tree, other_tree, recv_keys, tag, t_op['src'], t_mode, relation,
+         m_mode, depth2, raises, tuple(c.op['src'] for c in calls[1:]))
+
+  def wit(assert_lines, short=False):
+    text = '\n'.join(src + assert_lines)
+    pre = preamble(text, hooks=True)
+    if short or len(pre) + len(text) > 1190:
+      pre = SHORT_PRE
+      text = text.replace('  ' + _WARM_T, '  _warm(t)').replace(
+          _PRE_IDS_2, 'pre = _ids(root, other)')
+    return pre + text
+
+  inner = [c for c in calls if c.level == 1]
+  if not state['hook_ran'] or not inner:
+    # The handler never ran (judged by the ordinary drivers) or found nothing
+    # to mutate in that relation.
+    rec.case('in-handler/scenario-not-applicable', key, True, nontrivial=False)
+    return None
+  if raises:
+    # T did not return normally: nothing is claimed about it.  What follows
+    # must be unaffected (see the caller).
+    return (src, False) if all(c.err is None for c in calls[1:]) else None
+  if outer.err is not None:
+    rec.case('op-raised(not-judged)', key, True, nontrivial=False)
+    return None
+  for c in calls[1:]:
+    cid = (f'{stem}|nested-call-returns-normally' if c.level == 1 else
+           'in-handler/depth-2|nested-call-returns-normally')
+    if c.err is not None:
+      # The same call on an equal tree outside any handler tells whether the
+      # call itself is refused (type, permission ...): then nothing is judged.
+      if _same_call_outside(tree, other_tree, calls, c):
+        rec.case(cid, key, False, f'{c.lines} made from inside the {hk} '
+                 f'handler of {pstr(recv_keys)!r} (running for {outer.lines}) '
+                 f'raised {type(c.err).__name__}: {c.err}; the same call after '
+                 f'the outer one returned succeeds', wit(
+                     ['assert not H, "handler did not run"']))
+      else:
+        rec.case('op-raised(not-judged)', key, True, nontrivial=False)
+      return None
+    rec.case(cid, key, True)
+  # --- events ----------------------------------------------------------------
+  exp_by_recv = {}    # id -> [(call index, keys, node, items)]
+  for i, c in enumerate(calls):
+    for rid, (rk, node, items) in c.receivers().items():
+      exp_by_recv.setdefault(rid, []).append((i, rk, node, items))
+  got_by_recv = {}
+  for j, e in enumerate(log):
+    if e[0] == 'c':
+      got_by_recv.setdefault(id(e[1]), []).append((j, e[1], e[2]))
+  problems = {i: [] for i in range(len(calls))}
+  matched = {i: [] for i in range(len(calls))}    # call -> [(log idx, keys)]
+
+  def keyset(rk, items):
+    return {a[len(rk):] for a, _, _ in items}
+  for rid, lst in exp_by_recv.items():
+    node = lst[0][2]
+    obs = observable(node) or ''
+    if 'change' in obs:
+      pool = list(got_by_recv.get(rid, []))
+      for i, rk, _, items in lst:
+        c = calls[i]
+        same = [g for g in pool
+                if {tuple(kp.keys) for kp in g[2]} == keyset(rk, items)]
+        if not c.delivers:
+          for g in same:
+            pool.remove(g)
+            problems[i].append(
+                ('count', f'{pstr(rk)!r} got an event for {c.lines[1:]}, which '
+                 f'asked for none'))
+          continue
+        if not same:
+          problems[i].append(('count', f'{pstr(rk)!r} ({c.rtag}) got no event '
+                              f'with locations '
+                              f'{sorted(map(pstr, keyset(rk, items)))}'))
+          continue
+        best = None
+        for g in same:
+          pb = check_payload(c.root, rk, items, g[2], c.op, snap=c.new)
+          if not pb:
+            best = (g, pb)
+            break
+          best = best or (g, pb)
+        pool.remove(best[0])
+        problems[i] += best[1]
+        matched[i].append((best[0][0], rk))
+      for g in pool:   # more events than calls that affect this receiver
+        owner = max(i for i, *_ in lst)
+        problems[owner].append(
+            ('count', f'{pstr(lst[0][1])!r} got an extra event '
+             f'{sorted(str(k) for k in g[2])}'))
+    if 'bound' in obs and rid in pre_ids:
+      want = sum(1 for i, *_ in lst if calls[i].delivers)
+      cnt = sum(1 for e in log if e[0] == 'b' and e[1] is node)
+      if cnt != want:
+        owner = max(i for i, *_ in lst)
+        problems[owner].append(('count', f'{pstr(lst[0][1])!r} got {cnt} '
+                                f'_on_bound calls, want {want}'))
+  for rid, lst in got_by_recv.items():
+    if rid not in exp_by_recv:
+      x = lst[0][1]
+      problems[len(calls) - 1 if calls[-1].delivers else 0].append(
+          ('stranger', f'{type(x).__name__} at {pstr(_keys(x))!r} got an event '
+           f'{sorted(str(k) for k in lst[0][2])} but is not an ancestor of a '
+           f'changed location'))
+  for i, ms in matched.items():
+    ms.sort()
+    for a in range(len(ms)):
+      for b in range(a + 1, len(ms)):
+        if is_strict_desc(ms[b][1], ms[a][1]):
+          problems[i].append(('order', f'{pstr(ms[a][1])!r} notified before '
+                              f'its descendant {pstr(ms[b][1])!r}'))
+  want = sorted(
+      (calls[i].rtag, pstr(rk), sorted(map(pstr, keyset(rk, items))))
+      for lst in exp_by_recv.values() for i, rk, node, items in lst
+      if calls[i].delivers and 'change' in (observable(node) or ''))
+  want_b = sorted(
+      (calls[i].rtag, pstr(rk))
+      for rid, lst in exp_by_recv.items() for i, rk, node, _ in lst
+      if calls[i].delivers and rid in pre_ids and
+      'bound' in (observable(node) or ''))
+
+  def wit_events():
+    """Witness of an event failure, as explicit as the size limit allows."""
+    w = wit([_EV_SRC, f'want = {want!r}',
+             "assert ev == want, f'events {ev} != {want}'", _NB_SRC,
+             f'assert nb == {want_b!r}, nb'])
+    if len(w) > 1190:
+      w = wit(['ev, nb = _events(LOG, other, pre)',
+               f'assert (ev, nb) == ({want!r}, {want_b!r}), (ev, nb)'], True)
+    if len(w) > 1190:   # events per receiver only
+      cnt = sorted((k, sum(1 for e in want if e[:2] == k))
+                   for k in {e[:2] for e in want})
+      w = wit(['ev, nb = _events(LOG, other, pre)',
+               'c = sorted((k, sum(1 for e in ev if e[:2] == k)) '
+               'for k in {e[:2] for e in ev})',
+               f'assert (c, nb) == ({cnt!r}, {want_b!r}), (c, nb)'], True)
+    return w
+  sfx = {'skip': '|skip_notification=True',
+         'disabled': '|notify_on_change(False)-in-handler'}.get(
+             calls[1].mode, '')
+  ok_all = True
+  for i, c in enumerate(calls):
+    cid = (f'{stem}|outer-call-events', f'{stem}|nested-call-events{sfx}',
+           f"in-handler/depth-2/{state['hk2']}|nested-call-events")[c.level]
+    pbs = problems[i]
+    for kind in (sorted({p[0] for p in pbs if p[0] == 'order'}) +
+                 [None]):
+      msgs = [m for k_, m in pbs if (k_ == 'order') == (kind == 'order')]
+      if kind == 'order':
+        ok_all &= rec.case(cid + '-order', key, False, _scn_msg(
+            calls, hk, recv_keys, i) + '; '.join(msgs[:3]), wit_events())
+      else:
+        ok_all &= rec.case(cid, key, not msgs, _scn_msg(
+            calls, hk, recv_keys, i) + '; '.join(msgs[:4]),
+                           wit_events() if msgs else '')
+  # --- derived facts ---------------------------------------------------------
+  # (as everywhere in this file: only when nobody asked for silence)
+  for rtag, rt in roots.items() if all(c.delivers for c in calls) else ():
+    focus = set()
+    for c in calls:
+      if c.rtag == rtag:
+        focus.add(c.op['at'])
+        for abs_keys, _, _, _ in c.exp:
+          focus.update(abs_keys[:i] for i in range(len(abs_keys)))
+    if not focus:
+      continue
+    try:
+      stale = stale_facts(rt, focus)
+    except Exception as e:  # pylint: disable=broad-except
+      stale = [((), f'facts-raised {type(e).__name__}: {e}', None, None)]
+    if stale:
+      keys, name, got, want_ = stale[0]
+      access = FACT_SRC.get(name, f'x.{name}')
+      rn = root_name[rtag]
+      w = wit([f"x = {node_expr(keys).replace('root', rn)}",
+               f'y = pg.from_json(pg.to_json({rn}), allow_partial=True)',
+               'f = ' + node_expr(keys).replace('root', 'y', 1),
+               f'got, want = {access}, {access.replace("x", "f", 1)}',
+               'assert pg.eq(got, want) or repr(got) == repr(want), '
+               "f'stale {got!r} != fresh {want!r}'"])
+      ok_all &= rec.case(
+          f'{stem}|derived-facts', key, False, _scn_msg(calls, hk, recv_keys, 0)
+          + f'{name} at {rn}:{pstr(keys)!r} is {got!r}, fresh copy gives '
+          f'{want_!r} (+{len(stale) - 1} more)', w)
+    else:
+      rec.case(f'{stem}|derived-facts', key, True)
+  return (src, all(c.delivers for c in calls)) if ok_all else None
+
+
+def _scn_msg(calls, hk, recv_keys, i):
+  inner = '; then '.join(' '.join(c.lines) + f' [{c.rtag}]' for c in calls[1:])
+  return (f'{calls[0].lines} runs the {hk} handler of {pstr(recv_keys)!r}, '
+          f'which does {inner}; call #{i}: ')
+
+
+def _same_call_outside(tree, other_tree, calls, failed):
+  """True iff the calls made one after the other (no handler) all succeed."""
+  roots = {'r': build(tree)}
+  if other_tree:
+    roots['o'] = build(other_tree)
+  try:
+    for c in calls:
+      if c.level > failed.level:
+        continue
+      _exec('\n'.join(c.lines[1:]), n=resolve(roots[c.rtag], c.op['at']),
+            root=roots[c.rtag])
+      if c is failed:
+        return True
+  except Exception:  # pylint: disable=broad-except
+    return False
+  finally:
+    del LOG[:]
+  return True
+
+
+class _Renamed:
+  """Recorder view that files the cases of an ordinary step under one stem."""
+
+  def __init__(self, rec, stem):
+    self.rec, self.stem = rec, stem
+
+  def case(self, case_id, key, ok, message='', witness='', nontrivial=True):
+    if '|' in case_id:
+      case_id = self.stem + '|' + case_id.split('|', 1)[1]
+    return self.rec.case(case_id, key, ok, message, witness, nontrivial)
+
+
+def drv_in_handler(tier, seed):
+  rec = Recorder(
+      'C09', 'mutating calls made from inside a running change handler '
+      '(_on_change / _on_bound override, onchange_callback of Dict / List, '
+      '_on_change of a functor subclass): events of the nested and of the '
+      'outer call, derived facts after the outer call returned, and the next '
+      'ordinary call',
+      scope='10 trees (the 7 + 3 with functors); every node that observes '
+      'events x handler (change / bound) x where the handler mutates (its own '
+      'node, the location just written, a descendant, a sibling, an ancestor, '
+      'another tree) x 1 (quick) / 4 (thorough) seeded (outer op, nested op) '
+      'pairs from the path-stable mutators; per handler 2 (12) more scenarios '
+      'with the nested call made with skip_notification=None / =False / =True, '
+      'in the handler\'s own notify_on_change(True) / (False) scope, with a '
+      'second handler mutating in turn (depth 2), or with the handler raising '
+      'after its call; every 5th scenario is followed by one ordinary mutation '
+      'outside any handler (events; derived facts unless the handler raised or '
+      'asked for silence)')
+  r = rng(seed, 'c09-in-handler')
+  ALL_NODES[0] = tier != 'quick'
+  reps, extra = (1, 2) if tier == 'quick' else (4, 12)
+  trees = dict(TREES, **FN_TREES)
+  names = list(trees)
+  count = 0
+  for tree in trees:
+    proto = build(tree)
+    t_ops = [o for o in gen_ops(proto, None, 1) if _stable(o)]
+    for recv_keys, node in sym_nodes(proto):
+      obs = observable(node)
+      if not obs:
+        continue
+      below = [o for o in t_ops if _is_prefix(recv_keys, o['at']) and all(
+          o['at'] + tuple(rel) != recv_keys for rel, _ in o['exp'])]
+      if not below:
+        continue
+      for tag in [t for t, w in (('c', 'change'), ('b', 'bound')) if w in obs]:
+        plan = [(rel, 'normal', False, False) for rel in RELATIONS
+                for _ in range(reps)]
+        for _ in range(extra):
+          x = r.random()
+          plan.append((r.choice(RELATIONS),
+                       r.choice(list(INNER_MODES)[1:]) if x < 0.6 else 'normal',
+                       0.6 <= x < 0.8, x >= 0.8))
+        for relation, m_mode, depth2, raises in plan:
+          direct = [o for o in below if o['at'] == recv_keys]
+          t_op = r.choice(direct if direct and r.random() < 0.5 else below)
+          x = r.random()
+          t_mode = ('normal' if x < 0.8 else 'skip-false'
+                    if x < 0.9 and takes_skip(t_op) else 'nested-enabled')
+          other_tree = r.choice(names)
+          try:
+            src = _in_handler_scenario(
+                rec, r, tree, other_tree, recv_keys, tag, t_op, t_mode,
+                relation, m_mode, depth2, raises)
+          except Exception as e:  # pylint: disable=broad-except
+            H.clear()
+            del LOG[:]
+            src = None
+            rec.case('in-handler/scenario|harness-exception',
+                     (tree, recv_keys, tag, t_op['src'], relation, m_mode), False,
+                     f'{type(e).__name__}: {e} ' + traceback.format_exc()[-400:],
+                     SHORT_PRE + f'root = {TREE_SRC[tree]}\nn = '
+                     f"{node_expr(t_op['at'])}\n{t_op['src']}")
+          count += 1
+          if src is None or not (raises or count % 5 == 0):
+            continue
+          # The next ordinary call, outside any handler.
+          _follow_up(rec, r, tree, other_tree, src[0], raises, src[1])
+  _life_cycle_handlers(rec, r, trees, 1 if tier == 'quick' else 6)
+  return rec.result()
+
+
+# Handlers of ANOTHER object that run while that object is constructed or
+# attached somewhere (its _on_init / _on_bound at construction, its
+# _on_parent_change / _on_path_change) and mutate `root`: ordinary calls.
+_LIFE_CYCLE = {
+    'init': 'Hk(v=1)', 'bound': 'Hk(v=1)', 'parent': 'pg.Dict(x=Hk())',
+    'path': 'pg.Dict(y=pg.Dict(x=Hk()))'}
+
+
+def _life_cycle_handlers(rec, r, trees, per_kind):
+  for tree in trees:
+    ops = [o for o in gen_ops(build(tree), None, 1)
+           if _stable(o) and '\n' not in o['src']]
+    if not ops:
+      continue
+    for kind, trigger in _LIFE_CYCLE.items():
+      for op in r.sample(ops, min(per_kind, len(ops))):
+        src = '\n'.join(['def act():', f"  {op['src']}"
+                         if not op['src'].startswith('n ') else
+                         f"  n = {node_expr(op['at'])}; {op['src']}",
+                         f'ARM[{kind!r}] = act', trigger,
+                         f"assert not ARM, 'the {kind} handler did not run'"])
+        op2 = dict(op, src=src, must_succeed=False,
+                   name=f'in-handler/on_{kind}-of-another-object')
+        root = build(tree)
+        _warm(root)
+        ARM.clear()
+        run_step(rec, tree, root, [], op2, 'normal', 'life-cycle')
+        ARM.clear()
+
+
+def _follow_up(rec, r, tree, other_tree, src, raises, facts_too):
+  """Replays the scenario `src`, then judges one ordinary step on `root`.
+
+  facts_too: nobody asked for silence and nothing raised so far, so that the
+  derived facts have to be fresh after the step as well.
+  """
+  env = dict(_NS)
+  try:
+    exec('\n'.join(src), env)  # pylint: disable=exec-used
+  except Exception as e:  # pylint: disable=broad-except
+    H.clear()
+    del LOG[:]
+    rec.case('in-handler/scenario-replay|harness-exception',
+             (tree, other_tree, tuple(src)), False,
+             f'{type(e).__name__}: {e}', SHORT_PRE + '\n'.join(src))
+    return
+  H.clear()
+  del LOG[:]
+  root = env['root']
+  try:
+    _warm(root)
+    ops = [o for o in gen_ops(root, r, 1) if _stable(o)]
+  except Exception:  # pylint: disable=broad-except
+    return
+  if not ops:
+    return
+  op = r.choice(ops)
+  stem = ('call-after-handler-raised' if raises else
+          'call-after-handler-mutation')
+  # (compact form of the scenario: the witness has a size limit)
+  history = [[ln.replace(_WARM_T, '_warm(t)') for ln in src[1:]
+              if ln != _PRE_IDS_2] + (['_warm(root)'] if facts_too else [])]
+  run_step(_Renamed(rec, stem), tree, root, history, op, 'normal',
+           'follow-up', check_facts=facts_too)
+
+
 DRIVERS = [drv_single_ops, drv_histories, drv_receiver_classes, drv_misc,
-           drv_references]
+           drv_references, drv_functor_args, drv_in_handler]
 
 
 def replay(rec):
